@@ -8,14 +8,14 @@
 //! operations outside the modelled set: monitor only; their recorded result shape keeps the model store aligned.
 use arrharness::*;
 use std::any::Any;
-use std::cell::RefCell;
+use std::cell::{Cell, RefCell};
 use std::panic::{catch_unwind, AssertUnwindSafe};
 
 type T2 = Tuple2<i32, i32>;
 
 #[derive(Clone)]
 enum V {
-    I32(Array<i32>), I64(Array<i64>), U8(Array<u8>), Us(Array<usize>), F64(Array<f64>), B(Array<bool>), S(Array<String>), T2(Array<T2>), Is(Array<isize>),
+    I32(Array<i32>), I64(Array<i64>), U8(Array<u8>), Us(Array<usize>), F64(Array<f64>), B(Array<bool>), S(Array<String>), T2(Array<T2>), Is(Array<isize>), I8(Array<i8>),
     /// list / pair of arrays
     L(Vec<V>),
     /// an array of an element type the store does not chain on (Tuple3, List, char, Tuple2 of other types): monitored, shape kept
@@ -23,18 +23,47 @@ enum V {
     Nil,
 }
 
-thread_local! { static BAD: RefCell<Vec<String>> = RefCell::new(vec![]); }
+thread_local! {
+    static BAD: RefCell<Vec<String>> = RefCell::new(vec![]);
+    /// exec mode: every step that has an `impl … for Result<Array<T>, ArrayError>` is ALSO called on `Ok(array)` (the chained receiver)
+    static TWIN_ON: Cell<bool> = Cell::new(false);
+    static IN_TWIN: Cell<bool> = Cell::new(false);
+    /// records (class + shapes) of the chained twins of the current step
+    static TWIN: RefCell<Vec<String>> = RefCell::new(vec![]);
+}
 
 /// the C01 monitor on one real array; returns its shape
 fn chk<T: ArrayElement>(a: &Array<T>) -> Vec<usize> {
     let ok = catch_unwind(AssertUnwindSafe(|| consistent(a))).unwrap_or(false);
     let shape = a.get_shape().unwrap_or_default();
+    let via = if IN_TWIN.with(|c| c.get()) { "the chained call on Ok(array) (impl … for Result<Array<T>, ArrayError>) returned an " } else { "returned an " };
+    let n = a.get_elements().map(|e| e.len()).unwrap_or(usize::MAX);
     if !ok {
-        let n = a.get_elements().map(|e| e.len()).unwrap_or(usize::MAX);
-        BAD.with(|b| b.borrow_mut().push(format!("inconsistent array: shape {:?} (product {}) but {} elements; len()={:?} ndim()={:?} is_empty()={:?}",
-            shape, shape.iter().product::<usize>(), n, a.len().ok(), a.ndim().ok(), a.is_empty().ok())));
+        BAD.with(|b| b.borrow_mut().push(format!("{}inconsistent array: shape {:?} (product {}) but {} elements; len()={:?} ndim()={:?} is_empty()={:?}",
+            via, shape, shape.iter().product::<usize>(), n, a.len().ok(), a.ndim().ok(), a.is_empty().ok())));
+    }
+    // the same five getters through the chained receiver `impl ArrayMeta<T> for Result<Array<T>, ArrayError>`
+    let got = catch_unwind(AssertUnwindSafe(|| {
+        let r: Result<Array<T>, ArrayError> = Ok(a.clone());
+        (r.len().ok(), r.ndim().ok(), r.is_empty().ok(), r.get_shape().ok(), r.get_elements().ok().map(|e| e.len()))
+    }));
+    let want = (Some(n), Some(shape.len()), Some(n == 0), Some(shape.clone()), Some(n));
+    match got {
+        Ok(g) if g == want => {}
+        Ok(g) => BAD.with(|b| b.borrow_mut().push(format!("{}array of shape {:?} with {} elements whose getters on the chained receiver Ok(array) disagree with it: len()={:?} ndim()={:?} is_empty()={:?} get_shape()={:?} get_elements().len()={:?}",
+            via, shape, n, g.0, g.1, g.2, g.3, g.4))),
+        Err(_) => BAD.with(|b| b.borrow_mut().push(format!("{}array of shape {:?} on which a getter of the chained receiver panics", via, shape))),
     }
     shape
+}
+/// run the chained twin of a step (exec mode only); its arrays are monitored like any other, its record is kept for the comparison
+fn twin_run(f: impl FnOnce() -> Out) {
+    if !TWIN_ON.with(|c| c.get()) { return; }
+    IN_TWIN.with(|c| c.set(true));
+    let r = catch_unwind(AssertUnwindSafe(f));
+    IN_TWIN.with(|c| c.set(false));
+    let rec = match r { Ok(o) => record(&o), Err(_) => "P".to_string() };
+    TWIN.with(|t| t.borrow_mut().push(rec));
 }
 
 trait ToV { fn to_v(self) -> V; }
@@ -44,7 +73,7 @@ impl<X: ArrayElement + 'static> ToV for Array<X> {
         let any: Box<dyn Any> = Box::new(self);
         macro_rules! tr { ($any:ident, $t:ty, $c:path) => { let $any = match $any.downcast::<Array<$t>>() { Ok(a) => return $c(*a), Err(x) => x }; } }
         tr!(any, i32, V::I32); tr!(any, i64, V::I64); tr!(any, u8, V::U8); tr!(any, usize, V::Us); tr!(any, f64, V::F64);
-        tr!(any, bool, V::B); tr!(any, String, V::S); tr!(any, T2, V::T2); tr!(any, isize, V::Is);
+        tr!(any, bool, V::B); tr!(any, String, V::S); tr!(any, T2, V::T2); tr!(any, isize, V::Is); tr!(any, i8, V::I8);
         let _ = any;
         V::Opq(shape)
     }
@@ -66,12 +95,12 @@ fn shape_of(v: &V) -> Option<Vec<usize>> {
     match v {
         V::I32(a) => a.get_shape().ok(), V::I64(a) => a.get_shape().ok(), V::U8(a) => a.get_shape().ok(), V::Us(a) => a.get_shape().ok(),
         V::F64(a) => a.get_shape().ok(), V::B(a) => a.get_shape().ok(), V::S(a) => a.get_shape().ok(), V::T2(a) => a.get_shape().ok(),
-        V::Is(a) => a.get_shape().ok(), V::Opq(s) => Some(s.clone()), _ => None,
+        V::Is(a) => a.get_shape().ok(), V::I8(a) => a.get_shape().ok(), V::Opq(s) => Some(s.clone()), _ => None,
     }
 }
 fn ty_of(v: &V) -> &'static str {
     match v { V::I32(_) => "i32", V::I64(_) => "i64", V::U8(_) => "u8", V::Us(_) => "usize", V::F64(_) => "f64", V::B(_) => "bool", V::S(_) => "str",
-        V::T2(_) => "t2", V::Is(_) => "isize", V::L(_) => "list", V::Opq(_) => "opq", V::Nil => "nil" }
+        V::T2(_) => "t2", V::Is(_) => "isize", V::I8(_) => "i8", V::L(_) => "list", V::Opq(_) => "opq", V::Nil => "nil" }
 }
 /// record of a step outcome in the format of the model driver
 fn record(o: &Out) -> String {
@@ -91,6 +120,7 @@ trait Elem: ArrayElement + 'static { fn tag(i: i64) -> Self; }
 impl Elem for i32 { fn tag(i: i64) -> Self { i as i32 } }
 impl Elem for i64 { fn tag(i: i64) -> Self { i } }
 impl Elem for u8 { fn tag(i: i64) -> Self { i.rem_euclid(256) as u8 } }
+impl Elem for i8 { fn tag(i: i64) -> Self { (i.rem_euclid(256) as u8) as i8 } }
 impl Elem for usize { fn tag(i: i64) -> Self { i.unsigned_abs() as usize } }
 impl Elem for isize { fn tag(i: i64) -> Self { i as isize } }
 impl Elem for f64 { fn tag(i: i64) -> Self { i as f64 } }
@@ -122,25 +152,40 @@ fn ul(s: &str) -> Vec<usize> { parse_usize_list(s) }
 fn il(s: &str) -> Vec<isize> { parse_isize_list(s) }
 fn oil(s: &str) -> Option<Vec<isize>> { if s == "none" { None } else { Some(il(s)) } }
 
+/// `$body` is a method call on the array binding `$a`.  It is evaluated on the plain receiver `&Array<T>` and — in exec mode —
+/// a second time with `$a` rebound to `&Ok(array)`, i.e. through `impl … for Result<Array<T>, ArrayError>` (the chained form).
 macro_rules! on_types {
+    ($v:expr, [$($c:ident),*], |$a:ident| $body:expr) => { match $v { $(V::$c($a) => {
+        let plain__ = fin($body);
+        twin_run(|| { let r__ = Ok::<_, ArrayError>($a.clone()); let $a = &r__; fin($body) });
+        plain__
+    })* _ => skip() } };
+}
+/// plain receiver only (no Result-receiver impl exists for the call, or it is not a method call)
+macro_rules! on_types_p {
     ($v:expr, [$($c:ident),*], |$a:ident| $body:expr) => { match $v { $(V::$c($a) => fin($body),)* _ => skip() } };
 }
-macro_rules! on_all { ($v:expr, |$a:ident| $body:expr) => { on_types!($v, [I32, I64, U8, Us, F64, B, S, T2, Is], |$a| $body) }; }
-macro_rules! on_num { ($v:expr, |$a:ident| $body:expr) => { on_types!($v, [I32, I64, U8, Us, F64, Is], |$a| $body) }; }
-macro_rules! on_numb { ($v:expr, |$a:ident| $body:expr) => { on_types!($v, [I32, I64, U8, Us, F64, Is, B], |$a| $body) }; }
+macro_rules! on_all { ($v:expr, |$a:ident| $body:expr) => { on_types!($v, [I32, I64, U8, Us, F64, B, S, T2, Is, I8], |$a| $body) }; }
+macro_rules! on_all_p { ($v:expr, |$a:ident| $body:expr) => { on_types_p!($v, [I32, I64, U8, Us, F64, B, S, T2, Is, I8], |$a| $body) }; }
+macro_rules! on_num { ($v:expr, |$a:ident| $body:expr) => { on_types!($v, [I32, I64, U8, Us, F64, Is, I8], |$a| $body) }; }
+macro_rules! on_num_p { ($v:expr, |$a:ident| $body:expr) => { on_types_p!($v, [I32, I64, U8, Us, F64, Is, I8], |$a| $body) }; }
 macro_rules! on_ops { ($v:expr, |$a:ident| $body:expr) => { on_types!($v, [I32, I64, F64], |$a| $body) }; }
-macro_rules! on_int { ($v:expr, |$a:ident| $body:expr) => { on_types!($v, [I32, I64, U8, Us, Is, B], |$a| $body) }; }
 macro_rules! on_types2 {
-    ($v:expr, $w:expr, [$($c:ident),*], |$a:ident, $b:ident| $body:expr) => { match ($v, $w) { $((V::$c($a), V::$c($b)) => fin($body),)* _ => skip() } };
+    ($v:expr, $w:expr, [$($c:ident),*], |$a:ident, $b:ident| $body:expr) => { match ($v, $w) { $((V::$c($a), V::$c($b)) => {
+        let plain__ = fin($body);
+        twin_run(|| { let r__ = Ok::<_, ArrayError>($a.clone()); let $a = &r__; fin($body) });
+        plain__
+    })* _ => skip() } };
 }
-macro_rules! on_all2 { ($v:expr, $w:expr, |$a:ident, $b:ident| $body:expr) => { on_types2!($v, $w, [I32, I64, U8, Us, F64, B, S, T2, Is], |$a, $b| $body) }; }
-macro_rules! on_num2 { ($v:expr, $w:expr, |$a:ident, $b:ident| $body:expr) => { on_types2!($v, $w, [I32, I64, U8, Us, F64, Is], |$a, $b| $body) }; }
+macro_rules! on_all2_p { ($v:expr, $w:expr, |$a:ident, $b:ident| $body:expr) => { match ($v, $w) {
+    (V::I32($a), V::I32($b)) => fin($body), (V::I64($a), V::I64($b)) => fin($body), (V::U8($a), V::U8($b)) => fin($body), (V::Us($a), V::Us($b)) => fin($body), (V::F64($a), V::F64($b)) => fin($body),
+    (V::B($a), V::B($b)) => fin($body), (V::S($a), V::S($b)) => fin($body), (V::T2($a), V::T2($b)) => fin($body), (V::Is($a), V::Is($b)) => fin($body), (V::I8($a), V::I8($b)) => fin($body), _ => skip() } }; }
+macro_rules! on_all2 { ($v:expr, $w:expr, |$a:ident, $b:ident| $body:expr) => { on_types2!($v, $w, [I32, I64, U8, Us, F64, B, S, T2, Is, I8], |$a, $b| $body) }; }
 macro_rules! on_ops2 { ($v:expr, $w:expr, |$a:ident, $b:ident| $body:expr) => { on_types2!($v, $w, [I32, I64, F64], |$a, $b| $body) }; }
-macro_rules! on_int2 { ($v:expr, $w:expr, |$a:ident, $b:ident| $body:expr) => { on_types2!($v, $w, [I32, I64, U8, Us, Is, B], |$a, $b| $body) }; }
 
 trait FromV: Sized + ArrayElement { fn from_v(v: &V) -> Option<&Array<Self>>; }
 macro_rules! fromv { ($t:ty, $c:ident) => { impl FromV for $t { fn from_v(v: &V) -> Option<&Array<Self>> { if let V::$c(a) = v { Some(a) } else { None } } } }; }
-fromv!(i32, I32); fromv!(i64, I64); fromv!(u8, U8); fromv!(usize, Us); fromv!(f64, F64); fromv!(bool, B); fromv!(String, S); fromv!(T2, T2); fromv!(isize, Is);
+fromv!(i32, I32); fromv!(i64, I64); fromv!(u8, U8); fromv!(usize, Us); fromv!(f64, F64); fromv!(bool, B); fromv!(String, S); fromv!(T2, T2); fromv!(isize, Is); fromv!(i8, I8);
 fn arrs_of<T: FromV>(l: &[V]) -> Option<Vec<Array<T>>> { l.iter().map(|v| T::from_v(v).cloned()).collect() }
 /// list-taking operations: every member must have the element type of the first one (an empty list is taken as i32)
 macro_rules! on_list {
@@ -149,7 +194,7 @@ macro_rules! on_list {
         macro_rules! go { ($ty:ty) => {{ type $t = $ty; match arrs_of::<$ty>(l) { Some($arrs) => fin($body), None => skip() } }}; }
         match l.first() {
             None | Some(V::I32(_)) => go!(i32), Some(V::I64(_)) => go!(i64), Some(V::U8(_)) => go!(u8), Some(V::Us(_)) => go!(usize), Some(V::F64(_)) => go!(f64),
-            Some(V::B(_)) => go!(bool), Some(V::S(_)) => go!(String), Some(V::T2(_)) => go!(T2), Some(V::Is(_)) => go!(isize), _ => skip(),
+            Some(V::B(_)) => go!(bool), Some(V::S(_)) => go!(String), Some(V::T2(_)) => go!(T2), Some(V::Is(_)) => go!(isize), Some(V::I8(_)) => go!(i8), _ => skip(),
         }
     }};
 }
@@ -157,8 +202,8 @@ macro_rules! on_list {
 macro_rules! on_ty {
     ($ty:expr, [$($n:literal => $t:ty),*], |$tt:ident| $body:expr) => { match $ty { $($n => { type $tt = $t; fin($body) })* _ => skip() } };
 }
-macro_rules! ctor_all { ($ty:expr, |$tt:ident| $body:expr) => { on_ty!($ty, ["i32" => i32, "i64" => i64, "u8" => u8, "usize" => usize, "f64" => f64, "bool" => bool, "str" => String, "t2" => T2, "isize" => isize], |$tt| $body) }; }
-macro_rules! ctor_num { ($ty:expr, |$tt:ident| $body:expr) => { on_ty!($ty, ["i32" => i32, "i64" => i64, "u8" => u8, "usize" => usize, "f64" => f64, "isize" => isize], |$tt| $body) }; }
+macro_rules! ctor_all { ($ty:expr, |$tt:ident| $body:expr) => { on_ty!($ty, ["i32" => i32, "i64" => i64, "u8" => u8, "usize" => usize, "f64" => f64, "bool" => bool, "str" => String, "t2" => T2, "isize" => isize, "i8" => i8], |$tt| $body) }; }
+macro_rules! ctor_num { ($ty:expr, |$tt:ident| $body:expr) => { on_ty!($ty, ["i32" => i32, "i64" => i64, "u8" => u8, "usize" => usize, "f64" => f64, "isize" => isize, "i8" => i8], |$tt| $body) }; }
 
 fn ty_field<'a>(args: &[&'a str]) -> &'a str { args.iter().find_map(|a| a.strip_prefix('#')).unwrap_or("i64") }
 fn sort_kind(s: &str) -> Option<Option<String>> {
@@ -184,7 +229,22 @@ const BIN_FLT: [&str; 2] = ["copysign", "nextafter"];
 /// two-operand operations whose outcome depends on the VALUES of the second operand (zero-divisor guard)
 const BIN_GUARD: [&str; 6] = ["divide", "true_divide", "fmod", "remainder", "mod", "floor_divide"];
 
-fn unary_num<N: Numeric + 'static>(name: &str, a: &Array<N>) -> Option<Out> {
+/// a table of method calls, compiled twice: on the plain receiver `&Array<N>` and on the chained receiver `&Result<Array<N>, ArrayError>`
+macro_rules! table2 {
+    ($plain:ident, $chained:ident, [$($bound:tt)*], |$name:ident, $a:ident $(, $x:ident : $xt:ty)*| $body:block) => {
+        fn $plain<N: $($bound)* + 'static>($name: &str, $a: &Array<N> $(, $x: $xt)*) -> Option<Out> $body
+        fn $chained<N: $($bound)* + 'static>($name: &str, $a: &Result<Array<N>, ArrayError> $(, $x: $xt)*) -> Option<Out> $body
+    };
+}
+/// the plain outcome of a table call, plus (exec mode) its chained twin
+fn both(plain: Option<Out>, chained: impl FnOnce() -> Option<Out>) -> Option<Out> {
+    let p = plain?;
+    twin_run(|| chained().unwrap_or_else(skip));
+    Some(p)
+}
+macro_rules! tbl { ($f:ident, $fr:ident, $name:expr, $x:expr $(, $e:expr)*) => { both($f($name, $x $(, $e)*), || $fr($name, &Ok($x.clone()) $(, $e)*))? } }
+
+table2!(unary_num, unary_num_r, [Numeric], |name, a| {
     Some(match name {
         "reciprocal" => fin(a.reciprocal()), "positive" => fin(a.positive()), "negative" => fin(a.negative()),
         "exp" => fin(a.exp()), "exp2" => fin(a.exp2()), "exp_m1" => fin(a.exp_m1()), "log" => fin(a.log()), "log2" => fin(a.log2()),
@@ -196,16 +256,16 @@ fn unary_num<N: Numeric + 'static>(name: &str, a: &Array<N>) -> Option<Out> {
         "bitwise_not" => fin(ArrayBinary::bitwise_not(a)), "invert" => fin(a.invert()),
         _ => return None,
     })
-}
-fn unary_ops<N: NumericOps + 'static>(name: &str, a: &Array<N>) -> Option<Out> {
+});
+table2!(unary_ops, unary_ops_r, [NumericOps], |name, a| {
     Some(match name {
         "i0" => fin(a.i0()), "sinc" => fin(a.sinc()), "sin" => fin(a.sin()), "cos" => fin(a.cos()), "tan" => fin(a.tan()),
         "asin" => fin(a.asin()), "acos" => fin(a.acos()), "atan" => fin(a.atan()), "degrees" => fin(a.degrees()), "rad2deg" => fin(a.rad2deg()),
         "radians" => fin(a.radians()), "deg2rad" => fin(a.deg2rad()),
         _ => return None,
     })
-}
-fn bin_num<N: Numeric + 'static>(name: &str, a: &Array<N>, b: &Array<N>) -> Option<Out> {
+});
+table2!(bin_num, bin_num_r, [Numeric], |name, a, b: &Array<N>| {
     Some(match name {
         "add" => fin(ArrayArithmetic::add(a, b)), "subtract" => fin(a.subtract(b)), "multiply" => fin(ArrayArithmetic::multiply(a, b)),
         "power" => fin(a.power(b)), "float_power" => fin(a.float_power(b)), "logn" => fin(a.logn(b)), "log_add_exp" => fin(a.log_add_exp(b)),
@@ -217,21 +277,21 @@ fn bin_num<N: Numeric + 'static>(name: &str, a: &Array<N>, b: &Array<N>) -> Opti
         "gcd" => fin(a.gcd(b)), "lcm" => fin(a.lcm(b)),
         _ => return None,
     })
-}
-fn reduce_ops<N: NumericOps + 'static>(name: &str, a: &Array<N>, ax: Option<isize>) -> Option<Out> {
+});
+table2!(reduce_ops, reduce_ops_r, [NumericOps], |name, a, ax: Option<isize>| {
     Some(match name {
         "sum" => fin(a.sum(ax)), "prod" => fin(a.prod(ax)), "nansum" => fin(a.nansum(ax)), "nanprod" => fin(a.nanprod(ax)),
         "cumsum" => fin(a.cumsum(ax)), "cumprod" => fin(a.cumprod(ax)), "nancumsum" => fin(a.nancumsum(ax)), "nancumprod" => fin(a.nancumprod(ax)),
         _ => return None,
     })
-}
-fn extreme_num<N: Numeric + 'static>(name: &str, a: &Array<N>, ax: Option<isize>) -> Option<Out> {
+});
+table2!(extreme_num, extreme_num_r, [Numeric], |name, a, ax: Option<isize>| {
     Some(match name {
         "max" => fin(ArrayExtrema::max(a, ax)), "min" => fin(ArrayExtrema::min(a, ax)), "amax" => fin(a.amax(ax)), "amin" => fin(a.amin(ax)),
         "nanmax" => fin(a.nanmax(ax)), "nanmin" => fin(a.nanmin(ax)),
         _ => return None,
     })
-}
+});
 fn operator_ops<N: NumericOps + 'static>(name: &str, a: &Array<N>, b: &Array<N>) -> Option<Out> {
     let (x, y) = (a.clone(), b.clone());
     macro_rules! fam { ($op:tt, $opa:tt, $base:literal) => {
@@ -277,20 +337,20 @@ fn run_modelled(st: &[V], name: &str, a: &[&str], ty: &str) -> Option<Out> {
         "ones" => ctor_num!(ty, |T| Array::<T>::ones(ul(a[0]))),
         "full" => ctor_num!(ty, |T| Array::<T>::full(ul(a[0]), <T as Numeric>::from_usize(7))),
         "rand" => ctor_num!(ty, |T| Array::<T>::rand(ul(a[0]))),
-        "zeros_like" => on_num!(g!(0), |x| Array::zeros_like(x)),
-        "ones_like" => on_num!(g!(0), |x| Array::ones_like(x)),
-        "full_like" => on_num!(g!(0), |x| Array::full_like(x, Numeric::from_usize(7))),
+        "zeros_like" => on_num_p!(g!(0), |x| Array::zeros_like(x)),
+        "ones_like" => on_num_p!(g!(0), |x| Array::ones_like(x)),
+        "full_like" => on_num_p!(g!(0), |x| Array::full_like(x, Numeric::from_usize(7))),
         "eye" => ctor_num!(ty, |T| Array::<T>::eye(us(a[0]), ousz(a[1]), ousz(a[2]))),
         "identity" => ctor_num!(ty, |T| Array::<T>::identity(us(a[0]))),
         "tri" => ctor_num!(ty, |T| Array::<T>::tri(us(a[0]), ousz(a[1]), oisz(a[2]))),
         "arange" => ctor_num!(ty, |T| Array::<T>::arange(<T as Numeric>::from_f64(a[0].parse().unwrap()), <T as Numeric>::from_f64(a[1].parse().unwrap()),
             parse_opt::<f64>(a[2]).map(<T as Numeric>::from_f64))),
         "linspace" => ctor_num!(ty, |T| Array::<T>::linspace(<T as Numeric>::from_f64(a[0].parse().unwrap()), <T as Numeric>::from_f64(a[1].parse().unwrap()), ousz(a[2]), obool(a[3]))),
-        "diag" => on_num!(g!(0), |x| x.diag(oisz(a[1]))),
-        "diagflat" => on_num!(g!(0), |x| x.diagflat(oisz(a[1]))),
-        "tril" => on_num!(g!(0), |x| x.tril(oisz(a[1]))),
-        "triu" => on_num!(g!(0), |x| x.triu(oisz(a[1]))),
-        "vander" => on_num!(g!(0), |x| x.vander(ousz(a[1]), obool(a[2]))),
+        "diag" => on_num_p!(g!(0), |x| x.diag(oisz(a[1]))),
+        "diagflat" => on_num_p!(g!(0), |x| x.diagflat(oisz(a[1]))),
+        "tril" => on_num_p!(g!(0), |x| x.tril(oisz(a[1]))),
+        "triu" => on_num_p!(g!(0), |x| x.triu(oisz(a[1]))),
+        "vander" => on_num_p!(g!(0), |x| x.vander(ousz(a[1]), obool(a[2]))),
         // ---- axis / shape
         "transpose" => on_all!(g!(0), |x| x.transpose(oil(a[1]))),
         "moveaxis" => on_all!(g!(0), |x| x.moveaxis(il(a[1]), il(a[2]))),
@@ -308,7 +368,7 @@ fn run_modelled(st: &[V], name: &str, a: &[&str], ty: &str) -> Option<Out> {
         "broadcast_to" => on_all!(g!(0), |x| x.broadcast_to(ul(a[1]))),
         "broadcast" => on_all2!(g!(0), g!(1), |x, y| x.broadcast(y)),
         "broadcast_arrays" => on_list!(&gl!(0), |arrs, T| Array::<T>::broadcast_arrays(arrs)),
-        "zip" => on_all2!(g!(0), g!(1), |x, y| x.zip(y)),
+        "zip" => on_all2_p!(g!(0), g!(1), |x, y| x.zip(y)),
         // ---- split / join
         "array_split" => on_all!(g!(0), |x| x.array_split(us(a[1]), ousz(a[2]))),
         "split" => on_all!(g!(0), |x| ArraySplit::split(x, us(a[1]), ousz(a[2]))),
@@ -337,11 +397,11 @@ fn run_modelled(st: &[V], name: &str, a: &[&str], ty: &str) -> Option<Out> {
         "repeat" => on_all!(g!(0), |x| x.repeat(&ul(a[1]), ousz(a[2]))),
         "trim_zeros" => on_all!(g!(0), |x| x.trim_zeros()),
         // ---- closures
-        "map" => on_all!(g!(0), |x| x.map(|e| e.clone())),
-        "map_e" => on_all!(g!(0), |x| x.map_e(|_, e| e.clone())),
-        "filter_e" => { let (m, t) = (us(a[1]), us(a[2])); on_all!(g!(0), |x| x.filter_e(|i, _| i % m.max(1) < t)) }
-        "filter_map_e" => { let (m, t) = (us(a[1]), us(a[2])); on_all!(g!(0), |x| x.filter_map_e(|i, e| if i % m.max(1) < t { Some(e.clone()) } else { None })) }
-        "filter" => on_all!(g!(0), |x| x.filter(|e| !nz_is_zero(e))),
+        "map" => on_all_p!(g!(0), |x| x.map(|e| e.clone())),
+        "map_e" => on_all_p!(g!(0), |x| x.map_e(|_, e| e.clone())),
+        "filter_e" => { let (m, t) = (us(a[1]), us(a[2])); on_all_p!(g!(0), |x| x.filter_e(|i, _| i % m.max(1) < t)) }
+        "filter_map_e" => { let (m, t) = (us(a[1]), us(a[2])); on_all_p!(g!(0), |x| x.filter_map_e(|i, e| if i % m.max(1) < t { Some(e.clone()) } else { None })) }
+        "filter" => on_all_p!(g!(0), |x| x.filter(|e| !nz_is_zero(e))),
         // ---- queries, sorting
         "count_nonzero" => on_all!(g!(0), |x| x.count_nonzero(oisz(a[1]), obool(a[2]))),
         "argmax" => on_all!(g!(0), |x| x.argmax(oisz(a[1]), obool(a[2]))),
@@ -349,7 +409,7 @@ fn run_modelled(st: &[V], name: &str, a: &[&str], ty: &str) -> Option<Out> {
         "sort" => { let k = sort_kind(a[2])?; on_all!(g!(0), |x| x.sort(oisz(a[1]), k.clone())) }
         "argsort" => { let k = sort_kind(a[2])?; on_all!(g!(0), |x| x.argsort(oisz(a[1]), k.clone())) }
         "unique" => on_all!(g!(0), |x| x.unique(oisz(a[1]))),
-        "clip" => on_num!(g!(0), |x| match (FromV::from_v(g!(1)), FromV::from_v(g!(2))) { (Some(lo), Some(hi)) => x.clip(Some(Array::clone(lo)), Some(Array::clone(hi))), _ => Err(ArrayError::NotImplemented) }),
+        "clip" => { let (vlo, vhi) = (g!(1), g!(2)); on_num!(g!(0), |x| match (FromV::from_v(vlo), FromV::from_v(vhi)) { (Some(lo), Some(hi)) => x.clip(Some(Array::clone(lo)), Some(Array::clone(hi))), _ => Err(ArrayError::NotImplemented) }) }
         // ---- products
         "vdot" => on_ops2!(g!(0), g!(1), |x, y| x.vdot(y)),
         "outer" => on_ops2!(g!(0), g!(1), |x, y| x.outer(y)),
@@ -359,21 +419,21 @@ fn run_modelled(st: &[V], name: &str, a: &[&str], ty: &str) -> Option<Out> {
         // ---- bits
         "unpack_bits" => on_types!(g!(0), [U8], |x| x.unpack_bits(oisz(a[1]), oisz(a[2]), Some(a[3]))),
         "pack_bits" => on_types!(g!(0), [U8], |x| x.pack_bits(oisz(a[1]), Some(a[2]))),
-        "op_neg" => on_ops!(g!(0), |x| Ok::<_, ArrayError>(-x.clone())),
-        "op_not" => on_types!(g!(0), [B], |x| Ok::<_, ArrayError>(!x.clone())),
+        "op_neg" => on_types_p!(g!(0), [I32, I64, F64], |x| Ok::<_, ArrayError>(-x.clone())),
+        "op_not" => on_types_p!(g!(0), [B], |x| Ok::<_, ArrayError>(!x.clone())),
         _ => {
-            if FOLD_OPS.contains(&name) || SCAN_OPS.contains(&name) { let ax = oisz(a[1]); return Some(match g!(0) { V::I32(x) => reduce_ops(name, x, ax)?, V::I64(x) => reduce_ops(name, x, ax)?, V::F64(x) => reduce_ops(name, x, ax)?, _ => skip() }); }
-            if EXTREME_OPS.contains(&name) { let ax = oisz(a[1]); return Some(match g!(0) { V::I32(x) => extreme_num(name, x, ax)?, V::I64(x) => extreme_num(name, x, ax)?, V::U8(x) => extreme_num(name, x, ax)?, V::Us(x) => extreme_num(name, x, ax)?, V::F64(x) => extreme_num(name, x, ax)?, V::Is(x) => extreme_num(name, x, ax)?, _ => skip() }); }
-            if UNARY_NUM.contains(&name) { return Some(match g!(0) { V::I32(x) => unary_num(name, x)?, V::I64(x) => unary_num(name, x)?, V::U8(x) => unary_num(name, x)?, V::Us(x) => unary_num(name, x)?, V::F64(x) => unary_num(name, x)?, V::Is(x) => unary_num(name, x)?, _ => skip() }); }
-            if UNARY_OPS.contains(&name) { return Some(match g!(0) { V::I32(x) => unary_ops(name, x)?, V::I64(x) => unary_ops(name, x)?, V::F64(x) => unary_ops(name, x)?, _ => skip() }); }
-            if UNARY_FLT.contains(&name) { return Some(match (name, g!(0)) { ("signbit", V::F64(x)) => fin(x.signbit()), ("spacing", V::F64(x)) => fin(x.spacing()), _ => skip() }); }
-            if BIN_NUM.contains(&name) { return Some(match (g!(0), g!(1)) { (V::I32(x), V::I32(y)) => bin_num(name, x, y)?, (V::I64(x), V::I64(y)) => bin_num(name, x, y)?, (V::U8(x), V::U8(y)) => bin_num(name, x, y)?,
-                (V::Us(x), V::Us(y)) => bin_num(name, x, y)?, (V::F64(x), V::F64(y)) => bin_num(name, x, y)?, (V::Is(x), V::Is(y)) => bin_num(name, x, y)?, _ => skip() }); }
+            if FOLD_OPS.contains(&name) || SCAN_OPS.contains(&name) { let ax = oisz(a[1]); return Some(match g!(0) { V::I32(x) => tbl!(reduce_ops, reduce_ops_r, name, x, ax), V::I64(x) => tbl!(reduce_ops, reduce_ops_r, name, x, ax), V::F64(x) => tbl!(reduce_ops, reduce_ops_r, name, x, ax), V::I8(x) => tbl!(reduce_ops, reduce_ops_r, name, x, ax), _ => skip() }); }
+            if EXTREME_OPS.contains(&name) { let ax = oisz(a[1]); return Some(match g!(0) { V::I32(x) => tbl!(extreme_num, extreme_num_r, name, x, ax), V::I64(x) => tbl!(extreme_num, extreme_num_r, name, x, ax), V::U8(x) => tbl!(extreme_num, extreme_num_r, name, x, ax), V::Us(x) => tbl!(extreme_num, extreme_num_r, name, x, ax), V::F64(x) => tbl!(extreme_num, extreme_num_r, name, x, ax), V::Is(x) => tbl!(extreme_num, extreme_num_r, name, x, ax), V::I8(x) => tbl!(extreme_num, extreme_num_r, name, x, ax), _ => skip() }); }
+            if UNARY_NUM.contains(&name) { return Some(match g!(0) { V::I32(x) => tbl!(unary_num, unary_num_r, name, x), V::I64(x) => tbl!(unary_num, unary_num_r, name, x), V::U8(x) => tbl!(unary_num, unary_num_r, name, x), V::Us(x) => tbl!(unary_num, unary_num_r, name, x), V::F64(x) => tbl!(unary_num, unary_num_r, name, x), V::Is(x) => tbl!(unary_num, unary_num_r, name, x), V::I8(x) => tbl!(unary_num, unary_num_r, name, x), _ => skip() }); }
+            if UNARY_OPS.contains(&name) { return Some(match g!(0) { V::I32(x) => tbl!(unary_ops, unary_ops_r, name, x), V::I64(x) => tbl!(unary_ops, unary_ops_r, name, x), V::F64(x) => tbl!(unary_ops, unary_ops_r, name, x), V::I8(x) => tbl!(unary_ops, unary_ops_r, name, x), _ => skip() }); }
+            if UNARY_FLT.contains(&name) { return Some(match name { "signbit" => on_types!(g!(0), [F64], |x| x.signbit()), _ => on_types!(g!(0), [F64], |x| x.spacing()) }); }
+            if BIN_NUM.contains(&name) { return Some(match (g!(0), g!(1)) { (V::I32(x), V::I32(y)) => tbl!(bin_num, bin_num_r, name, x, y), (V::I64(x), V::I64(y)) => tbl!(bin_num, bin_num_r, name, x, y), (V::U8(x), V::U8(y)) => tbl!(bin_num, bin_num_r, name, x, y),
+                (V::Us(x), V::Us(y)) => tbl!(bin_num, bin_num_r, name, x, y), (V::F64(x), V::F64(y)) => tbl!(bin_num, bin_num_r, name, x, y), (V::Is(x), V::Is(y)) => tbl!(bin_num, bin_num_r, name, x, y), (V::I8(x), V::I8(y)) => tbl!(bin_num, bin_num_r, name, x, y), _ => skip() }); }
             if BIN_OPS.contains(&name) { return Some(match name { "atan2" => on_ops2!(g!(0), g!(1), |x, y| x.atan2(y)), _ => on_ops2!(g!(0), g!(1), |x, y| x.hypot(y)) }); }
-            if BIN_FLT.contains(&name) { return Some(match (name, g!(0), g!(1)) { ("copysign", V::F64(x), V::F64(y)) => fin(x.copysign(y)), ("nextafter", V::F64(x), V::F64(y)) => fin(x.nextafter(y)), _ => skip() }); }
-            if name == "ldexp" { return Some(match (g!(0), g!(1)) { (V::F64(x), V::I32(y)) => fin(x.ldexp(y)), _ => skip() }); }
+            if BIN_FLT.contains(&name) { return Some(match name { "copysign" => on_types2!(g!(0), g!(1), [F64], |x, y| x.copysign(y)), _ => on_types2!(g!(0), g!(1), [F64], |x, y| x.nextafter(y)) }); }
+            if name == "ldexp" { return Some(match (g!(0), g!(1)) { (V::F64(x), V::I32(y)) => { let p = fin(x.ldexp(y)); twin_run(|| { let r: Result<Array<f64>, ArrayError> = Ok(x.clone()); fin(r.ldexp(y)) }); p } _ => skip() }); }
             if name.starts_with("op_bit") { let j = if a.len() > 1 { 1 } else { 0 }; return Some(match (g!(0), g!(j)) { (V::I32(x), V::I32(y)) => operator_bits(name, x, y)?, (V::I64(x), V::I64(y)) => operator_bits(name, x, y)?,
-                (V::U8(x), V::U8(y)) => operator_bits(name, x, y)?, (V::Us(x), V::Us(y)) => operator_bits(name, x, y)?, (V::Is(x), V::Is(y)) => operator_bits(name, x, y)?, (V::B(x), V::B(y)) => operator_bits(name, x, y)?, _ => skip() }); }
+                (V::U8(x), V::U8(y)) => operator_bits(name, x, y)?, (V::I8(x), V::I8(y)) => operator_bits(name, x, y)?, (V::Us(x), V::Us(y)) => operator_bits(name, x, y)?, (V::Is(x), V::Is(y)) => operator_bits(name, x, y)?, (V::B(x), V::B(y)) => operator_bits(name, x, y)?, _ => skip() }); }
             if name == "round" || name == "around" { return run_unmodelled(st, name, a, ty); }
             if name.starts_with("op_") { let j = if a.len() > 1 { 1 } else { 0 }; return Some(match (g!(0), g!(j)) { (V::I32(x), V::I32(y)) => operator_ops(name, x, y)?, (V::I64(x), V::I64(y)) => operator_ops(name, x, y)?,
                 (V::F64(x), V::F64(y)) => operator_ops(name, x, y)?, _ => skip() }); }
@@ -390,6 +450,15 @@ const STR_BINARY: [&str; 20] = ["add", "join", "partition", "rpartition", "equal
 
 fn str_ops(st: &[V], name: &str, a: &[&str]) -> Option<Out> {
     let x = match get(st, a[0]) { Some(V::S(x)) => x, _ => return None };
+    both(str_ops_on(st, name, a, x), || { let r: Result<Array<String>, ArrayError> = Ok(x.clone()); str_ops_on_r(st, name, a, &r) })
+}
+macro_rules! dual_fn {
+    ($plain:ident, $chained:ident, $elem:ty, |$st:ident, $name:ident, $a:ident, $x:ident| $body:block) => {
+        fn $plain($st: &[V], $name: &str, $a: &[&str], $x: &Array<$elem>) -> Option<Out> $body
+        fn $chained($st: &[V], $name: &str, $a: &[&str], $x: &Result<Array<$elem>, ArrayError>) -> Option<Out> $body
+    };
+}
+dual_fn!(str_ops_on, str_ops_on_r, String, |st, name, a, x| {
     let sarg = |i: usize| -> Option<&Array<String>> { match get(st, a.get(i)?) { Some(V::S(y)) => Some(y), _ => None } };
     let uarg = |i: usize| -> Option<&Array<usize>> { match get(st, a.get(i)?) { Some(V::Us(y)) => Some(y), _ => None } };
     Some(match name {
@@ -425,9 +494,9 @@ fn str_ops(st: &[V], name: &str, a: &[&str]) -> Option<Out> {
             }
         }
     })
-}
+});
 
-fn linalg_ops<N: NumericOps + 'static>(name: &str, x: &Array<N>, y: Option<&Array<N>>, a: &[&str]) -> Option<Out> {
+table2!(linalg_ops, linalg_ops_r, [NumericOps], |name, x, y: Option<&Array<N>>, a: &[&str]| {
     Some(match name {
         "det" => fin(x.det()), "qr" => fin(x.qr()), "eigvals" => fin(x.eigvals()), "eig" => fin(x.eig()),
         "solve" => fin(x.solve(y?)),
@@ -437,8 +506,17 @@ fn linalg_ops<N: NumericOps + 'static>(name: &str, x: &Array<N>, y: Option<&Arra
         "unwrap_phase" => fin(x.unwrap_phase(None, oisz(a[1]), None)),
         _ => return None,
     })
+});
+fn num_static<N: Numeric + FromV + 'static>(name: &str, x: &Array<N>, st: &[V], a: &[&str]) -> Option<Out> {
+    let other = |i: usize| -> Option<&Array<N>> { N::from_v(get(st, a.get(i)?)?) };
+    Some(match name {
+        "linspace_a" => fin(Array::linspace_a(x, other(1)?, ousz(a[2]), obool(a[3]))),
+        "geomspace_a" => fin(Array::geomspace_a(x, other(1)?, ousz(a[2]), obool(a[3]))),
+        "logspace_a" => fin(Array::logspace_a(x, other(1)?, ousz(a[2]), obool(a[3]), None)),
+        _ => return None,
+    })
 }
-fn num_ops<N: Numeric + FromV + 'static>(st: &[V], name: &str, x: &Array<N>, a: &[&str]) -> Option<Out> {
+table2!(num_ops, num_ops_r, [Numeric + FromV], |name, x, st: &[V], a: &[&str]| {
     let other = |i: usize| -> Option<&Array<N>> { N::from_v(get(st, a.get(i)?)?) };
     Some(match name {
         "clip0" => fin(x.clip(None, None)),
@@ -447,12 +525,9 @@ fn num_ops<N: Numeric + FromV + 'static>(st: &[V], name: &str, x: &Array<N>, a: 
         "round" | "around" => { let d = match get(st, a[1]) { Some(V::Is(d)) => d, _ => return Some(skip()) }; if name == "round" { fin(x.round(d)) } else { fin(x.around(d)) } }
         "modf" => fin(x.modf()), "divmod" => fin(x.divmod()),
         "convolve" => fin(x.convolve(other(1)?, if a[2] == "none" { None } else { Some(a[2]) })),
-        "linspace_a" => fin(Array::linspace_a(x, other(1)?, ousz(a[2]), obool(a[3]))),
-        "geomspace_a" => fin(Array::geomspace_a(x, other(1)?, ousz(a[2]), obool(a[3]))),
-        "logspace_a" => fin(Array::logspace_a(x, other(1)?, ousz(a[2]), obool(a[3]), None)),
         _ => return None,
     })
-}
+});
 
 fn run_unmodelled(st: &[V], name: &str, a: &[&str], ty: &str) -> Option<Out> {
     if !a.is_empty() { if let Some(o) = str_ops(st, name, a) { return Some(o); } }
@@ -461,21 +536,21 @@ fn run_unmodelled(st: &[V], name: &str, a: &[&str], ty: &str) -> Option<Out> {
         "slice" => on_all!(g!(0), |x| x.slice(us(a[1])..us(a[2]))),
         "indices_at" => on_all!(g!(0), |x| x.indices_at(&ul(a[1]))),
         "insert_axis" => on_all2!(g!(0), g!(2), |x, y| x.insert(&ul(a[1]), y, ousz(a[3]))),
-        "for_each" => on_all!(g!(0), |x| { let mut n = 0usize; x.for_each(|_| n += 1).map(|_| NoArr) }),
-        "fold" => on_all!(g!(0), |x| x.fold(0usize, |acc, _| acc + 1).map(|_| NoArr)),
-        "filter_map" => on_all!(g!(0), |x| x.filter_map(|e| if nz_is_zero(e) { None } else { Some(e.clone()) })),
+        "for_each" => on_all_p!(g!(0), |x| { let mut n = 0usize; x.for_each(|_| n += 1).map(|_| NoArr) }),
+        "fold" => on_all_p!(g!(0), |x| x.fold(0usize, |acc, _| acc + 1).map(|_| NoArr)),
+        "filter_map" => on_all_p!(g!(0), |x| x.filter_map(|e| if nz_is_zero(e) { None } else { Some(e.clone()) })),
         "frexp" => on_types!(g!(0), [F64], |x| x.frexp()),
         "logspace" => ctor_num!(ty, |T| Array::<T>::logspace(<T as Numeric>::from_f64(a[0].parse().unwrap()), <T as Numeric>::from_f64(a[1].parse().unwrap()), ousz(a[2]), obool(a[3]), None)),
         "geomspace" => ctor_num!(ty, |T| Array::<T>::geomspace(<T as Numeric>::from_f64(a[0].parse().unwrap()), <T as Numeric>::from_f64(a[1].parse().unwrap()), ousz(a[2]), obool(a[3]))),
         "det" | "qr" | "eigvals" | "eig" | "solve" | "norm" | "diff" | "ediff1d" | "unwrap_phase" => {
             let r = match (g!(0), a.get(1).and_then(|s| get(st, s))) {
-                (V::I32(x), y) => linalg_ops(name, x, y.and_then(FromV::from_v), a), (V::I64(x), y) => linalg_ops(name, x, y.and_then(FromV::from_v), a),
-                (V::F64(x), y) => linalg_ops(name, x, y.and_then(FromV::from_v), a), _ => Some(skip()) };
+                (V::I32(x), y) => both(linalg_ops(name, x, y.and_then(FromV::from_v), a), || linalg_ops_r(name, &Ok(x.clone()), y.and_then(FromV::from_v), a)), (V::I64(x), y) => both(linalg_ops(name, x, y.and_then(FromV::from_v), a), || linalg_ops_r(name, &Ok(x.clone()), y.and_then(FromV::from_v), a)),
+                (V::F64(x), y) => both(linalg_ops(name, x, y.and_then(FromV::from_v), a), || linalg_ops_r(name, &Ok(x.clone()), y.and_then(FromV::from_v), a)), _ => Some(skip()) };
             r.unwrap_or_else(skip)
         }
         "clip0" | "clip1" | "clip2" | "round" | "around" | "modf" | "divmod" | "convolve" | "linspace_a" | "geomspace_a" | "logspace_a" => {
-            let r = match g!(0) { V::I32(x) => num_ops(st, name, x, a), V::I64(x) => num_ops(st, name, x, a), V::U8(x) => num_ops(st, name, x, a), V::Us(x) => num_ops(st, name, x, a),
-                V::F64(x) => num_ops(st, name, x, a), V::Is(x) => num_ops(st, name, x, a), _ => Some(skip()) };
+            macro_rules! nn { ($x:ident) => { if name.ends_with("space_a") { num_static(name, $x, st, a) } else { both(num_ops(name, $x, st, a), || num_ops_r(name, &Ok($x.clone()), st, a)) } } }
+            let r = match g!(0) { V::I32(x) => nn!(x), V::I64(x) => nn!(x), V::U8(x) => nn!(x), V::Us(x) => nn!(x), V::F64(x) => nn!(x), V::Is(x) => nn!(x), V::I8(x) => nn!(x), _ => Some(skip()) };
             r.unwrap_or_else(skip)
         }
         _ => return run_modelled(st, name, a, ty),
@@ -489,14 +564,26 @@ fn run_step(st: &[V], step: &str, bad: &mut Vec<String>) -> Out {
     let ty = ty_field(&fields[1..]);
     let a: Vec<&str> = fields[1..].iter().copied().filter(|f| !f.starts_with('#') && !f.starts_with('=')).collect();
     BAD.with(|b| b.borrow_mut().clear());
+    TWIN.with(|t| t.borrow_mut().clear());
+    IN_TWIN.with(|c| c.set(false));
     let r = catch_unwind(AssertUnwindSafe(|| match name.strip_prefix("u.") { Some(n) => run_unmodelled(st, n, &a, ty), None => run_modelled(st, name, &a, ty) }));
+    IN_TWIN.with(|c| c.set(false));
     BAD.with(|b| bad.extend(b.borrow_mut().drain(..)));
-    match r { Ok(Some(o)) => o, Ok(None) => Out { cls: "unknown", v: V::Nil }, Err(_) => Out { cls: "panic", v: V::Nil } }
+    let twins: Vec<String> = TWIN.with(|t| t.borrow_mut().drain(..).collect());
+    let o = match r { Ok(Some(o)) => o, Ok(None) => Out { cls: "unknown", v: V::Nil }, Err(_) => Out { cls: "panic", v: V::Nil } };
+    // both receivers: the chained call on Ok(array) must answer like the plain call (outcome class and shapes)
+    if o.cls == "ok" || o.cls == "err" {
+        let plain = record(&o);
+        for t in twins { if t != plain { bad.push(format!("answers {} on the plain receiver but {} when called on Ok(array) through impl … for Result<Array<T>, ArrayError> (A/L = shapes, E = error, P = panic)", plain, t)); } }
+    }
+    o
 }
 
 // ---------------------------------------------------------------- gen: typed random chains, built by running them
 
 const TYPES: [&str; 8] = ["i32", "i64", "u8", "usize", "f64", "bool", "str", "t2"];
+/// the robustness stream adds the third byte-sized element type
+const TYPES2: [&str; 10] = ["i32", "i64", "u8", "usize", "f64", "bool", "str", "t2", "i8", "u8"];
 /// operations whose result VALUES are the model's values when the inputs' are (element type i64)
 const FAITHFUL: [&str; 58] = ["new", "create", "single", "flat", "empty", "zeros", "ones", "full", "zeros_like", "ones_like", "full_like", "eye", "identity", "tri",
     "diag", "diagflat", "tril", "triu", "transpose", "moveaxis", "rollaxis", "swapaxes", "expand_dims", "squeeze", "reshape", "resize", "ravel", "atleast",
@@ -517,17 +604,22 @@ const OPS_NUM_EXTRA: [&str; 17] = ["zeros_like", "ones_like", "full_like", "diag
 const OPS_OPS_EXTRA: [&str; 16] = ["vdot", "outer", "inner", "matmul", "dot", "op_neg", "u.det", "u.qr", "u.eigvals", "u.eig", "u.solve", "u.norm", "u.diff", "u.ediff1d", "u.unwrap_phase", "u.fold"];
 const OPS_STR: [&str; 10] = ["u.zfill", "u.translate", "u.splitlines", "u.multiply", "u.center", "u.ljust", "u.rjust", "u.split", "u.rsplit", "u.replace"];
 
-fn is_num(t: &str) -> bool { matches!(t, "i32" | "i64" | "u8" | "usize" | "f64" | "isize") }
+fn is_num(t: &str) -> bool { matches!(t, "i32" | "i64" | "u8" | "usize" | "f64" | "isize" | "i8") }
 fn is_ops(t: &str) -> bool { matches!(t, "i32" | "i64" | "f64") }
-fn is_int(t: &str) -> bool { matches!(t, "i32" | "i64" | "u8" | "usize" | "isize" | "bool") }
+fn is_int(t: &str) -> bool { matches!(t, "i32" | "i64" | "u8" | "usize" | "isize" | "bool" | "i8") }
 
-struct G { rng: Rng, steps: Vec<String>, store: Vec<V>, faithful: Vec<bool>, ty: &'static str }
+struct G { rng: Rng, steps: Vec<String>, store: Vec<V>, faithful: Vec<bool>, ty: &'static str, wide: bool }
 
 impl G {
-    fn new(seed: u64, ty: &'static str) -> G { G { rng: Rng::new(seed), steps: vec![], store: vec![], faithful: vec![], ty } }
+    fn new(seed: u64, ty: &'static str) -> G { G { rng: Rng::new(seed), steps: vec![], store: vec![], faithful: vec![], ty, wide: false } }
     fn coin(&mut self, pct: usize) -> bool { self.rng.below(100) < pct }
-    fn dim(&mut self) -> usize { match self.rng.below(20) { 0 => 0, 1..=4 => 1, 5..=10 => 2, 11..=15 => 3, 16..=18 => 4, _ => 5 } }
+    fn dim(&mut self) -> usize {
+        // robustness stream: zero-length axes far more often (and in any position), axis lengths 6..17
+        if self.wide { return match self.rng.below(20) { 0..=2 => 0, 3..=6 => 1, 7..=10 => 2, 11..=13 => 3, 14 => 4, 15 => 5, 16 => 6, 17 => 8, _ => 7 + self.rng.below(11) }; }
+        match self.rng.below(20) { 0 => 0, 1..=4 => 1, 5..=10 => 2, 11..=15 => 3, 16..=18 => 4, _ => 5 }
+    }
     fn shape(&mut self) -> Vec<usize> {
+        if self.wide && self.coin(12) { let mut l = zero_shapes(); l.extend([vec![6, 6], vec![5, 7], vec![33], vec![2, 3, 7], vec![17, 2], vec![3, 0, 2], vec![1, 0, 1], vec![0, 3, 1]]); return l[self.rng.below(l.len())].clone(); }
         let r = match self.rng.below(20) { 0 => 0, 1..=5 => 1, 6..=12 => 2, 13..=17 => 3, _ => 4 };
         (0..r).map(|_| self.dim()).collect()
     }
@@ -805,7 +897,7 @@ fn all_ops() -> Vec<String> {
 /// element types an operation applies to
 fn types_for(op: &str) -> Vec<&'static str> {
     let b = op.strip_prefix("u.").unwrap_or(op);
-    let all9 = ["i32", "i64", "u8", "usize", "f64", "bool", "str", "t2", "isize"];
+    let all9 = ["i32", "i64", "u8", "usize", "f64", "bool", "str", "t2", "isize", "i8"];
     if OPS_STR.contains(&op) || (op.starts_with("u.") && (STR_UNARY.contains(&b) || b == "compare" || (STR_BINARY.contains(&b)))) { return vec!["str"]; }
     if ["new", "create", "single", "flat", "empty"].contains(&op) || OPS_ALL.contains(&op) { return all9.to_vec(); }
     if b == "unpack_bits" || b == "pack_bits" { return vec!["u8"]; }
@@ -839,12 +931,17 @@ fn gen(tier: &str, seed: u64, out: &mut dyn FnMut(String)) {
         "resize new|0|0|0|#i64 resize|@0|2,2",
     ] { out(c.to_string()); }
     // (ii) exhaustive small scope: every operation of the inventory as a chain on base arrays of every applicable element type and shape
-    let bases: Vec<Vec<usize>> = vec![vec![], vec![0], vec![1], vec![4], vec![8], vec![2, 3], vec![3, 3], vec![1, 3], vec![3, 1], vec![2, 0], vec![2, 2, 2], vec![2, 1, 3], vec![2, 3, 4], vec![2, 0, 3], vec![2, 3, 2, 2], vec![1, 2, 1, 2]];
+    let bases: Vec<Vec<usize>> = vec![vec![], vec![0], vec![1], vec![4], vec![8], vec![2, 3], vec![3, 3], vec![1, 3], vec![3, 1], vec![2, 0], vec![2, 2, 2], vec![2, 1, 3], vec![2, 3, 4], vec![2, 0, 3], vec![2, 3, 2, 2], vec![1, 2, 1, 2],
+        // robustness streams: zero-length axes in every position; >= 32 elements (not a multiple of 8) for the byte-sized element types; axis lengths 7..17
+        vec![0, 0], vec![0, 2], vec![1, 0], vec![0, 1], vec![0, 0, 2], vec![2, 3, 0],
+        vec![6, 6], vec![5, 7], vec![33], vec![2, 3, 7], vec![17, 2]];
     let reps = if thorough { 3 } else { 1 };
     for (oi, op) in all_ops().iter().enumerate() {
         for ty in types_for(op) {
             for (bi, base) in bases.iter().enumerate() {
                 if CTORS.contains(&op.as_str()) && bi >= 6 { continue; }
+                if bi >= 16 && ty == "t2" { continue; }
+                if bi >= 22 && !["u8", "i8", "bool", "i64", "f64"].contains(&ty) { continue; }
                 for rep in 0..reps {
                     let mut g = G::new(0xC01 + (oi * 1000 + bi * 10 + rep) as u64, if ty == "isize" { "i64" } else { ty });
                     if !CTORS.contains(&op.as_str()) { g.fresh(ty, base); }
@@ -863,6 +960,25 @@ fn gen(tier: &str, seed: u64, out: &mut dyn FnMut(String)) {
             if n > 0 && p != 0 { out(format!("broadcast_to new|{}|0|{}|#{} broadcast_to|@0|{}", n, n, ty, show_list(&s))); }
         }
     } }
+    // (iii-b) refusals around zero-length axes, on every element type: dropping / adding / replacing a zero-length axis changes
+    //         the element count, so the reshape must be refused (on both receivers); the valid spellings must be accepted
+    for ty in TYPES2.iter().take(9) {
+        let mut zs = zero_shapes(); zs.extend([vec![3, 0], vec![0, 3, 1], vec![1, 0, 1], vec![0, 1, 1]]);
+        for s in &zs {
+            let dropped: Vec<usize> = s.iter().copied().filter(|&d| d != 0).collect();
+            let ones: Vec<usize> = s.iter().map(|&d| if d == 0 { 1 } else { d }).collect();
+            let mut swapped = s.clone(); swapped.reverse();
+            for t in [dropped, ones, vec![1], vec![], vec![0], vec![1, 0], swapped, vec![1, 1]] {
+                out(format!("reshape new|0|0|{}|#{} reshape|@0|{}", show_list(s), ty, show_list(&t)));
+                out(format!("resize new|0|0|{}|#{} resize|@0|{} ravel|@1", show_list(s), ty, show_list(&t)));
+            }
+        }
+        for t in [vec![1usize], vec![], vec![1, 1], vec![0], vec![0, 1], vec![2, 0]] { out(format!("reshape empty|#{} reshape|@0|{} ravel|@1", ty, show_list(&t))); }
+        for (n, t) in [(4usize, vec![4usize, 0]), (4, vec![0, 4]), (4, vec![4, 1, 0]), (4, vec![0]), (1, vec![0]), (1, vec![1, 0]), (6, vec![2, 0, 3]), (33, vec![33, 0]), (36, vec![6, 0, 6])] {
+            out(format!("reshape flat|{}|#{} reshape|@0|{}", n, ty, show_list(&t)));
+            out(format!("reshape new|{}|0|{}|#{} ravel|@0 reshape|@1|{} atleast|@2|3", n, n, ty, show_list(&t)));
+        }
+    }
     // (iv) seeded random chains
     let (n_chains, max_len) = if thorough { (60000, 40) } else { (20000, 12) };
     let ops = all_ops();
@@ -870,6 +986,24 @@ fn gen(tier: &str, seed: u64, out: &mut dyn FnMut(String)) {
     for c in 0..n_chains {
         let ty = TYPES[top.below(TYPES.len())];
         let mut g = G::new(top.next() ^ c as u64, ty);
+        let len = 1 + g.rng.below(max_len);
+        let s0 = g.shape(); g.fresh(ty, &s0);
+        let mut tries = 0;
+        while g.steps.len() < len && tries < 4 * max_len {
+            tries += 1;
+            let op = if g.coin(8) { CTORS[g.rng.below(CTORS.len())].to_string() } else if g.coin(45) { OPS_ALL[g.rng.below(OPS_ALL.len())].to_string() } else { ops[g.rng.below(ops.len())].clone() };
+            g.emit(&op);
+        }
+        emit_chain(&g, out);
+    }
+    // (v) robustness stream: seeded random chains over shapes with zero-length axes in any position, axis lengths up to 17 and
+    //     the three byte-sized element types with >= 32 elements
+    let n_wide = if thorough { 18000 } else { 6000 };
+    let mut top = Rng::new(seed ^ 0x3A5E_C01);
+    for c in 0..n_wide {
+        let ty = TYPES2[top.below(TYPES2.len())];
+        let mut g = G::new(top.next() ^ c as u64, ty);
+        g.wide = true;
         let len = 1 + g.rng.below(max_len);
         let s0 = g.shape(); g.fresh(ty, &s0);
         let mut tries = 0;
@@ -927,6 +1061,7 @@ fn label_of(step: &str) -> &str { step.split('|').next().unwrap_or("") }
 fn exec(_op: &str, args: &[&str], expected: &str) -> Option<Verdict> {
     let exp: Vec<&str> = expected.strip_prefix("ok ")?.split(';').collect();
     if exp.len() != args.len() { return None; }
+    TWIN_ON.with(|c| c.set(true));
     let (recs, bad) = run_chain(args);
     if recs.iter().any(|r| r == "?") { return None; }
     let observed = format!("ok {}", recs.join(";"));
@@ -936,7 +1071,7 @@ fn exec(_op: &str, args: &[&str], expected: &str) -> Option<Verdict> {
         let small_refs: Vec<&str> = small.iter().map(String::as_str).collect();
         let (_, bad2) = run_chain(&small_refs);
         let chain = if bad2.is_empty() { args[..=*k].join(" ") } else { small.join(" ") };
-        return Some(Verdict::Mismatch { observed, detail: format!("C01 monitor: step {} `{}` returned an {}; shortest failing chain: C01.{} {}", k, args[*k], msg, label_of(args[*k]), chain) });
+        return Some(Verdict::Mismatch { observed, detail: format!("C01 monitor: step {} `{}` {}; shortest failing chain: C01.{} {}", k, args[*k], msg, label_of(args[*k]), chain) });
     }
     // 2. the tie: modelled steps must agree with the store machine on outcome class and shape
     let mut open: Option<String> = None;
